@@ -62,6 +62,8 @@ type Task struct {
 	lastSite  int
 	Root      int // the root task this goroutine descends from (itself for a caller task)
 	parent    int
+	blockedOn unsafe.Pointer // the channel the task waits for
+	rv        bool           // woken out of band as the partner of a channel rendezvous
 }
 
 const (
@@ -92,6 +94,8 @@ type Sched struct {
 	baseGoroutines int
 	UnownedSeen    bool
 	GoCalls        int
+	Leftover       int // goroutines of the library still blocked when the run ended (every caller task had finished)
+	chans          map[unsafe.Pointer]*simChan
 	OnStep         func(ran *Task, reason string) // monitors; called by the runner before every hand-off and at task end
 	done           chan struct{}
 	Deadlock       bool
@@ -108,7 +112,7 @@ var sched *Sched
 
 func NewSched(rng *Rand) *Sched {
 	return &Sched{Rng: rng, PreemptAt: map[PKey]bool{}, PreemptGlobal: map[int]bool{}, MaxYields: 5_000_000,
-		mutexes: map[any]*simMutex{}, onces: map[*sync.Once]*simOnce{}, wgs: map[*sync.WaitGroup]*simWG{}}
+		chans: map[unsafe.Pointer]*simChan{}, mutexes: map[any]*simMutex{}, onces: map[*sync.Once]*simOnce{}, wgs: map[*sync.WaitGroup]*simWG{}}
 }
 
 // NewReplaySched builds a scheduler that follows an explicit decision list.
@@ -251,12 +255,7 @@ func (s *Sched) startGoroutine(t *Task) {
 		}
 		next := s.pickOther("finish", t)
 		if next == nil {
-			// nobody runnable: either all done, or the rest are blocked forever
-			for _, o := range s.Tasks {
-				if o.state != stDone {
-					s.Deadlock = true
-				}
-			}
+			s.endOfRun()
 			s.done <- struct{}{}
 			return
 		}
@@ -367,13 +366,126 @@ func (s *Sched) block(t *Task) {
 	}
 	next := s.pickOther("block", t)
 	if next == nil {
-		// every task is blocked: deadlock among simulated primitives
-		s.Deadlock = true
+		// nobody runnable: the run is over. Unfinished caller tasks mean a deadlock among
+		// simulated primitives; goroutines of the library that are still blocked (workers of a
+		// pool waiting for work) stay behind
+		s.endOfRun()
 		s.done <- struct{}{}
-		<-t.wake // never returns; goroutine is leaked with the run
+		<-t.wake // never returns; the goroutine stays behind with the run
 		return
 	}
 	s.handoff(t, next)
+}
+
+func (s *Sched) endOfRun() {
+	for _, o := range s.Tasks {
+		if o.state != stDone {
+			if o.parent < 0 {
+				s.Deadlock = true
+			} else {
+				s.Leftover++
+			}
+		}
+	}
+}
+
+// ---- channels (see chan.go) ----
+
+type simChan struct {
+	closed       bool
+	sendq, recvq []*Task
+}
+
+func (s *Sched) chanFor(p unsafe.Pointer) *simChan {
+	c := s.chans[p]
+	if c == nil {
+		c = &simChan{}
+		s.chans[p] = c
+	}
+	return c
+}
+
+func (s *Sched) chYield(site int) {
+	s.cur.SyncOps++
+	s.yield(site, 1)
+}
+
+func (s *Sched) chBlock(p unsafe.Pointer) (unsafe.Pointer, bool) {
+	t := s.cur
+	t.blockedOn = p
+	s.block(t)
+	t.blockedOn = nil
+	if t.rv {
+		t.rv = false
+		return unsafe.Pointer(t), true
+	}
+	return unsafe.Pointer(t), false
+}
+
+func (s *Sched) chWake(p unsafe.Pointer) {
+	for _, t := range s.live {
+		if t.state == stBlocked && t.blockedOn == p {
+			t.state = stRunnable // it re-checks its condition when it runs
+		}
+	}
+}
+
+func (s *Sched) chClosed(p unsafe.Pointer) bool {
+	c := s.chans[p]
+	return c != nil && c.closed
+}
+
+func (s *Sched) chSetClosed(p unsafe.Pointer) { s.chanFor(p).closed = true }
+
+func (s *Sched) chMeet(p unsafe.Pointer, send bool) (active, ok bool) {
+	t := s.cur
+	c := s.chanFor(p)
+	if send && len(c.recvq) > 0 || !send && len(c.sendq) > 0 {
+		var w *Task
+		if send {
+			w, c.recvq = c.recvq[0], c.recvq[1:]
+		} else {
+			w, c.sendq = c.sendq[0], c.sendq[1:]
+		}
+		w.rv = true
+		w.state = stRunnable
+		w.wake <- struct{}{} // out of band: w performs its half of the rendezvous, then waits to be scheduled
+		return true, true
+	}
+	q := &c.sendq
+	if !send {
+		q = &c.recvq
+	}
+	for _, x := range *q {
+		if x == t {
+			return false, false
+		}
+	}
+	*q = append(*q, t)
+	return false, false
+}
+
+func (s *Sched) chLeave(p unsafe.Pointer, send bool) {
+	t := s.cur
+	c := s.chans[p]
+	if c == nil {
+		return
+	}
+	q := &c.sendq
+	if !send {
+		q = &c.recvq
+	}
+	for i, x := range *q {
+		if x == t {
+			*q = append((*q)[:i], (*q)[i+1:]...)
+			return
+		}
+	}
+}
+
+func (s *Sched) chPark(tok unsafe.Pointer) {
+	t := (*Task)(tok)
+	<-t.wake // the scheduling wake-up; from here on t is the running task again
 }
 
 // ---- hooks called by instrumented code ----
